@@ -157,6 +157,32 @@ Lemma example_in_scope :
                   /\ hget H_clen (p_hdrs resp) = Some (s "4") /\ p_body resp = s "2345".
 Proof. vm_compute. repeat split. eexists. repeat split. Qed.
 
+(* the specification tells header values apart: after a PATCH whose writer reports 11 bytes and
+   the ID "id1", only Range 0-10 and the Location of that ID in that repository are accepted *)
+Lemma upload_headers_discriminate :
+  let tr := [ECall (PushBlobChunkedResume (s "foo") (s "id1") 0 0) (Ok (VWriter 1%N));
+             ECall (WWrite 1%N (s "hello world")) (Ok (VN 11)); ECall (WClose 1%N) (Ok VUnit);
+             ECall (WID 1%N) (Ok (VStr (s "id1"))); ECall (WSize 1%N) (Ok (VN 11))] in
+  let resp r l := mkresp 202 [(H_location, l); (H_range, r)] [] None in
+  headers_ok ex_opts tr (resp (s "0-10") (s "/v2/foo/blobs/uploads/aWQx")) = true
+  /\ headers_ok ex_opts tr (resp (s "0-0") (s "/v2/foo/blobs/uploads/aWQx")) = false
+  /\ headers_ok ex_opts tr (resp (s "0-11") (s "/v2/foo/blobs/uploads/aWQx")) = false
+  /\ headers_ok ex_opts tr (resp (s "0-10") (s "/v2/foo/blobs/uploads/b3RoZXI")) = false
+  /\ headers_ok ex_opts tr (resp (s "0-10") (s "/v2/bar/blobs/uploads/aWQx")) = false.
+Proof. vm_compute. repeat split. Qed.
+
+(* ... and of a 201: the digest and the place of what the backend said was created *)
+Lemma created_headers_discriminate :
+  let d := {| d_media := s "application/octet-stream"; d_digest := ex_digest; d_size := 0; d_artifact := [] |} in
+  let other := s "sha256:0000000000000000000000000000000000000000000000000000000000000000" in
+  let tr := [ECall (PushManifest (s "foo") (s "latest") [] (s "application/octet-stream")) (Ok (VDesc d))] in
+  let resp l dg := mkresp 201 [(H_location, l); (H_dcd, dg)] [] None in
+  headers_ok ex_opts tr (resp (s "/v2/foo/manifests/" ++ ex_digest) ex_digest) = true
+  /\ headers_ok ex_opts tr (resp (s "/v2/foo/manifests/latest") ex_digest) = false
+  /\ headers_ok ex_opts tr (resp (s "/v2/foo/blobs/" ++ ex_digest) ex_digest) = false
+  /\ headers_ok ex_opts tr (resp (s "/v2/foo/manifests/" ++ ex_digest) other) = false.
+Proof. vm_compute. repeat split. Qed.
+
 (* before the repair: the manifest GET handler leaves its reader open *)
 Lemma manifest_get_unrepaired_leaks :
   exists (script : list bres) (rreq : request),
